@@ -151,7 +151,7 @@ Result == IF Moves(StmtKind) THEN out ELSE {}
 ResultDev == IF Moves(StmtKind) THEN outDev ELSE {}
 MachineTablesExact == phase = "done" => Result = BaseTables(prog)
 LocalsNeverReported == phase = "done" =>
-   \A n \in LocalNames(prog) : Tbl(None, n) \in Result => \E i \in DOMAIN prog : prog[i].e = "tbl" /\ prog[i].b = None /\ prog[i].c = n
+   \A n \in LocalNames(prog) : Tbl(None, n) \in Result => \E i \in DOMAIN prog : prog[i].e = "tbl" /\ Tbl(prog[i].b, prog[i].c) = Tbl(None, n)
 NoopReportsNothing == (phase = "done" /\ ~Moves(StmtKind)) => Result = {}
 \* C14: a default schema means exactly "every unqualified name written as S.name": the report under default S of the
 \* program equals the report of the textually qualified program without default (both are BaseTables over Tbl)
